@@ -142,7 +142,7 @@ func (x *Exec) pass() {
 	x.assertGlobal("(>= alloc@0 0)")
 	for _, c := range x.compOrder {
 		x.declConst(c+"@0", x.comps[c])
-		if strings.HasPrefix(c, "Ghost_calls_") {
+		if strings.HasPrefix(c, "Ghost_calls_") || strings.HasPrefix(c, "Ghost_atom_nch_") {
 			x.assertGlobal(eq(c+"@0", "0")) // call counters start at zero
 		}
 		st.heap[c] = c + "@0"
@@ -374,7 +374,7 @@ func (x *Exec) loopHead(li *loopInfo, st *State, variants map[*ssa.BasicBlock]Te
 		if strings.HasPrefix(c, "Ghost_ret_") && !x.loopCallsNamed(li, strings.TrimPrefix(c, "Ghost_ret_")) {
 			continue // no call of that name in the loop (callees inlined in the loop are not searched: see loopCallsNamed)
 		}
-		if strings.HasPrefix(c, "Ghost_calls_") || strings.HasPrefix(c, "Ghost_last") || strings.HasPrefix(c, "Ghost_ret_") {
+		if strings.HasPrefix(c, "Ghost_calls_") || strings.HasPrefix(c, "Ghost_last") || strings.HasPrefix(c, "Ghost_ret_") || strings.HasPrefix(c, "Ghost_atom_") {
 			st.heap[c] = x.havocConst(c+"@loop", x.comps[c])
 		}
 	}
